@@ -18,6 +18,7 @@ import ast
 from typing import Any, List, Optional, Set, Tuple
 
 from ..cfg import cfg_of
+from ..flow import flow_of
 from ..model import unparse, stmt_key, Func, AnchorError, f_cls
 from ..taint import Forward
 from . import sigflow
@@ -241,6 +242,105 @@ def run(ctx: Ctx) -> None:
                     rep.ok("C03.R4", f.qname, desc, f.loc(n), nontrivial=False)
                 else:
                     rep.bad("C03.R4", f.qname, desc, f.loc(n), [f"{f.loc(n)}: the branch does more than logging"], stmt_key(n), what="a debug flag changes what the analysis computes")
+
+    # ---- R7: no mutable class attribute shared by all the instances of an analysis class -------------------------------
+    rep.rule("C03.R7", "the classes of the analysis modules hold no mutable container at class level that their methods fill through `self` (it would be one "
+                       "object for the whole process: what one evaluation records changes the next one)")
+    n7 = 0
+    for c_ in prog.classes.values():
+        if c_.module.name not in ANALYSIS and c_.module.name not in ("dds._eval_ctx", "dds._global_ctx", "dds._retrieve_objects"):
+            continue
+        for st in c_.node.body:
+            tgt = None
+            if isinstance(st, ast.Assign) and len(st.targets) == 1 and isinstance(st.targets[0], ast.Name):
+                tgt, val = st.targets[0].id, st.value
+            elif isinstance(st, ast.AnnAssign) and isinstance(st.target, ast.Name) and st.value is not None:
+                tgt, val = st.target.id, st.value
+            if tgt is None:
+                continue
+            mutable = isinstance(val, (ast.Dict, ast.List, ast.Set)) or (isinstance(val, ast.Call) and unparse(val.func).split(".")[-1] in ("set", "dict", "list", "OrderedDict", "defaultdict", "deque"))
+            if not mutable:
+                continue
+            n7 += 1
+            rebinds = any(isinstance(x, (ast.Assign, ast.AnnAssign)) and any(isinstance(t, ast.Attribute) and t.attr == tgt and isinstance(t.value, ast.Name) and t.value.id == "self"
+                                                                          for t in (x.targets if isinstance(x, ast.Assign) else [x.target]))
+                          for m_ in c_.methods.values() if m_.name == "__init__" for x in m_.own_nodes())
+            fills = [(m_, x) for m_ in c_.methods.values() for x in m_.own_nodes()
+                     if (isinstance(x, ast.Call) and isinstance(x.func, ast.Attribute) and x.func.attr in ("add", "append", "update", "setdefault", "extend", "insert", "pop", "clear")
+                         and isinstance(x.func.value, ast.Attribute) and x.func.value.attr == tgt)
+                     or (isinstance(x, ast.Subscript) and isinstance(x.ctx, (ast.Store, ast.Del)) and isinstance(x.value, ast.Attribute) and x.value.attr == tgt)]
+            desc = f"{c_.name}.{tgt}: a container defined in the class body is not filled through `self`"
+            if fills and not rebinds:
+                m0, x0 = fills[0]
+                rep.bad("C03.R7", c_.qname, desc, c_.module.relpath + f":{st.lineno}", [f"{c_.module.relpath}:{st.lineno}: `{unparse(st, 60)}` is evaluated once, when the class is created",
+                        f"{m0.loc(x0)}: `{unparse(x0, 60)}` fills that single object from every instance",
+                        "a name rejected while analysing one module is skipped in every later analysis of the process: a tracked variable of the same name in another module is no "
+                        "longer hashed, so the signature differs from the one a fresh process computes"], f"class-container:{c_.name}.{tgt}", what="state of the analysis is shared by all evaluations of the process through a class attribute")
+            else:
+                rep.ok("C03.R7", c_.qname, desc, c_.module.relpath + f":{st.lineno}")
+    rep.info("C03.R7", "dds", f"{n7} class-level container(s) in the analysis classes", "dds/")
+
+    # ---- R8: the working directory never enters a path -----------------------------------------------------------------
+    rep.rule("C03.R8", "`Path.absolute()` / `os.path.abspath` / `.resolve()` on a store path given by the user is reached only under the outcome `is_absolute()` "
+                       "(a relative path must be refused, not completed with the working directory: it is hashed into the signatures of its readers)")
+    n8 = 0
+    pu = prog.classes.get("dds.structures_utils.DDSPathUtils")
+    if pu is None:
+        raise AnchorError("dds.structures_utils.DDSPathUtils not found")
+    for m_ in pu.methods.values():
+        mcfg = cfg_of(m_)
+        absolute_T = [b for b in mcfg.nodes if b.kind == "branch" and b.label == "T" and isinstance(b.ast, ast.Call) and isinstance(b.ast.func, ast.Attribute) and b.ast.func.attr == "is_absolute"]
+        for x in m_.own_nodes():
+            if isinstance(x, ast.Call) and ((isinstance(x.func, ast.Attribute) and x.func.attr in ("absolute", "resolve", "abspath", "realpath", "cwd")) or unparse(x.func) in ("os.getcwd",)):
+                par = m_.module.parent.get(x)
+                n8 += 1
+                desc = f"`{unparse(x, 40)}` completes a path only after `is_absolute()` was seen to hold"
+                from .common import dominated as _dom8
+                w = _dom8(ctx, m_, x, absolute_T) if absolute_T else [f"{m_.loc(x)}: no `is_absolute()` test in {m_.name}"]
+                if w is None:
+                    rep.ok("C03.R8", m_.qname, desc, m_.loc(x))
+                else:
+                    rep.bad("C03.R8", m_.qname, desc, m_.loc(x), w + ["a relative pathlib.Path store path is accepted and made absolute against the working directory: the signature of every "
+                            "function that loads it differs between two working directories"], stmt_key(x), what="the working directory enters a store path")
+    rep.floor("C03.R8", n8, 1)
+
+    # ---- R6: no text form of a value of unknown type is hashed --------------------------------------------------------
+    rep.rule("C03.R6", "in the value hasher a `str(x)` / `repr(x)` whose result is HASHED (first argument of a recursive hasher call or of a digest helper) is taken "
+                       "under an isinstance test of x that names types with a deterministic text (dates, paths): the text of a set / frozenset / arbitrary "
+                       "object depends on the hash seed or on addresses")
+    from .c05 import hasher as _hasher5
+    outer6, h6 = _hasher5(ctx)
+    n6 = 0
+    rec6 = {nf.name for nf in outer6.nested.values()}
+    for g_ in outer6.nested.values():
+        fl6 = flow_of(prog, g_)
+        gcfg = cfg_of(g_)
+        for c in g_.own_nodes():
+            if not (isinstance(c, ast.Call) and isinstance(c.func, ast.Name) and (c.func.id in rec6 or c.func.id.startswith("_algo")) and c.args):
+                continue
+            a0 = c.args[0]
+            texts = []
+            if isinstance(a0, ast.Call) and isinstance(a0.func, ast.Name) and a0.func.id in ("str", "repr") and a0.args:
+                texts.append((a0, a0))
+            elif isinstance(a0, ast.Name):
+                for d in fl6.defs_of_use(a0):
+                    v = d.value
+                    if isinstance(v, ast.Call) and isinstance(v.func, ast.Name) and v.func.id in ("str", "repr") and v.args:
+                        texts.append((v, d.stmt))
+            for t_, where_ in texts:
+                n6 += 1
+                operand = t_.args[0]
+                guards = [b for b in gcfg.nodes if b.kind == "branch" and b.label == "T" and isinstance(b.ast, ast.Call) and unparse(b.ast.func) == "isinstance" and len(b.ast.args) == 2
+                          and unparse(b.ast.args[0]) == unparse(operand) and "str" != unparse(b.ast.args[1])]
+                desc = f"`{unparse(t_, 30)}` (hashed by `{unparse(c, 40)}`) is the text of a value of a type with a deterministic text"
+                from .common import dominated as _dom6
+                if guards and _dom6(ctx, g_, where_, guards) is None:
+                    rep.ok("C03.R6", g_.qname, desc, g_.loc(c))
+                else:
+                    rep.bad("C03.R6", g_.qname, desc, g_.loc(c), [f"{g_.loc(where_)}: `{unparse(where_, 60)}` is not under an isinstance test of `{unparse(operand)}`",
+                            "a dict with a frozenset key is then hashed through str(frozenset(..)), whose element order follows PYTHONHASHSEED: the same program has different "
+                            "signatures in two processes (and {1: v} collides with {'1': v})"], stmt_key(c), what="the text form of an arbitrary value is hashed")
+    rep.floor("C03.R6", n6, 2)
 
     # ---- R5: argument values are hashed from their own content only ----------------------------------------------
     from .c05 import hasher, branches, dataclass_field_source
